@@ -19,9 +19,10 @@ returns such a tree), under explicit hypotheses about the texts of the fields, w
 * `AccountOK`: the segments after the first are alphanumeric and not empty — the model (`Account.wf`) checks the account type only, the
   registry (`Import.validAccount`) every segment;
 * `CommodityOK`: alphanumeric and not empty — the model does not check commodities, the registry (`Import.validCommodity`) does;
-* `DecimalOK`: `-?digits(.digits)?` (what the model's `parseDec` reads) — `decimal.NewFromString` accepts more (`1.`, `.5`, `1e3`);
-  `newFromString_of_parseDec` proves that on this shape it returns the same value;
-* `text.length ≤ 2^31`: `NewFromString` rejects more than 2^31 fractional digits (the exponent is an `int32`).
+* `DecimalOK`: the model's reading of the text (`FromSyntax.decimal`: ASCII digits, `parseDec` = `-?digits(.digits)?`) and
+  `decimal.NewFromString` agree on it — `NewFromString` accepts more (`1.`, `.5`, `1e3`); `decimalOK_of_model` (with
+  `newFromString_of_parseDec`): it holds of every text the model reads, in files of at most 2 GiB (`NewFromString` rejects more than
+  2^31 fractional digits: the exponent is an `int32`).
 
 The registry functions are fixed to `regAccount` / `regCommodity cur`: the model of `account.Registry.Get` / `commodity.Registry.Get`
 (`Import.validAccount`, `Import.validCommodity`; one pointer per name is one value per name; `cur` = the names tagged as currencies).
@@ -29,7 +30,7 @@ The registry functions are fixed to `regAccount` / `regCommodity cur`: the model
 | Go | theorem | model |
 |---|---|---|
 | prelude `Time.ParseISO`, `Decimal.NewFromString` | `parseDate_model`, `newFromString_model` | `FromSyntax.parseDate`, `Import.newFromString` (the copies are the originals) |
-| `decimal.NewFromString` on the grammar's decimals | `newFromString_of_parseDec`, `NewFromString_agrees` | `Dec.parseDec` |
+| `decimal.NewFromString` on the grammar's decimals | `newFromString_of_parseDec`, `decimalOK_of_model`, `NewFromString_agrees` | `Dec.parseDec` |
 | `Range.Extract` read as text | `Extract_ok`, `extract_ok` | `FromSyntax.fieldStr` |
 | `Date.Parse`, `Decimal.Parse` | `Date_Parse_agrees`, `Decimal_Parse_agrees` | `FromSyntax.date`, `FromSyntax.decimal` |
 | registry | `regAccount_agrees`, `regCommodity_agrees` | `FromSyntax.account` (valid iff `wf`, under `AccountOK`) |
@@ -366,8 +367,12 @@ def AccountOK (text : Bytes) (a : Syntax.Account) : Prop :=
 def CommodityOK (text : Bytes) (c : Syntax.Commodity) : Prop :=
   ∃ s, FromSyntax.fieldStr text c.range = some s ∧ Import.validCommodity s = true
 
-/-- a decimal of the shape `-?digits(.digits)?` (what `parseDecimal` accepts and the model's `parseDec` reads) -/
-def DecimalOK (text : Bytes) (d : Syntax.Decimal) : Prop := (FromSyntax.decimal text d.range).isSome = true
+/-- a decimal text on which the model's reading (`FromSyntax.decimal`: ASCII digits, `parseDec`) and `decimal.NewFromString` agree:
+the same value or both fail.  True of `-?digits(.digits)?` in ASCII digits (`decimalOK_of_model`: what the model reads) and of what
+the grammar admits beyond (`parseDecimal` accepts every Unicode digit: both fail); not of `1.`, `.5`, `1e3`, which only
+`NewFromString` reads -/
+def DecimalOK (text : Bytes) (d : Syntax.Decimal) : Prop :=
+  ∃ s, FromSyntax.fieldStr text d.range = some s ∧ Parse.newFromString s = FromSyntax.decimal text d.range
 
 theorem validAccount_wf (a : Knut.Account) (h : Import.validAccount a = true) : a.wf = true := by
   unfold Import.validAccount at h
@@ -447,11 +452,12 @@ theorem extract_length {text : Bytes} {r : Syntax.Range} {bs : Bytes} (h : r.ext
 
 /-- the text of a decimal the model reads: `decimal.NewFromString` returns the same value (files of at most 2 GiB: the `int32` bound on
 the number of fractional digits) -/
-theorem NewFromString_agrees {text : Bytes} {r : Syntax.Range} {q : Rat} (h : FromSyntax.decimal text r = some q)
-    (hlen : text.length ≤ 2147483648) :
-    ∃ s, FromSyntax.fieldStr text r = some s ∧ Decimal.NewFromString s = (q, none) := by
+theorem decimalOK_of_model {text : Bytes} {d : Syntax.Decimal} (h : (FromSyntax.decimal text d.range).isSome = true)
+    (hlen : text.length ≤ 2147483648) : DecimalOK text d := by
+  obtain ⟨q, h⟩ := Option.isSome_iff_exists.mp h
+  have h0 := h
   unfold FromSyntax.decimal at h
-  cases hb : FromSyntax.field text r with
+  cases hb : FromSyntax.field text d.range with
   | none => simp [hb] at h
   | some bs =>
     simp only [hb, Option.bind_eq_bind, Option.bind_some] at h
@@ -464,19 +470,31 @@ theorem NewFromString_agrees {text : Bytes} {r : Syntax.Range} {q : Rat} (h : Fr
         have hl : s.toList.length ≤ 2147483648 := by
           have h1 := chars_le_bytes s
           rw [bytes_of_utf8 hu] at h1
-          have h2 := extract_length (by simpa [FromSyntax.field] using hb : r.extract text = some bs)
+          have h2 := extract_length (by simpa [FromSyntax.field] using hb : d.range.extract text = some bs)
           omega
-        unfold Decimal.NewFromString
-        rw [newFromString_model, newFromString_of_parseDec h hl]
+        rw [h0, newFromString_model, newFromString_of_parseDec h hl]
     · simp at h
 
-/-- `directives.Decimal.Parse` on a decimal of the grammar's shape -/
-theorem Decimal_Parse_agrees {text : Bytes} {path : String} {d : Syntax.Decimal} {q : Rat}
-    (h : FromSyntax.decimal text d.range = some q) (hlen : text.length ≤ 2147483648) :
-    directives.Decimal.Parse (goDecimal text path d) = .ok (q, none) := by
-  obtain ⟨s, hs, hq⟩ := NewFromString_agrees h hlen
+/-- `decimal.NewFromString` on the extracted text of a decimal -/
+theorem NewFromString_agrees {text : Bytes} {d : Syntax.Decimal} (h : DecimalOK text d) :
+    ∃ s, FromSyntax.fieldStr text d.range = some s ∧ Decimal.NewFromString s = match FromSyntax.decimal text d.range with
+      | some q => (q, none)
+      | none => (0, some ⟨"can't convert %s to decimal"⟩) := by
+  obtain ⟨s, hs, hq⟩ := h
+  refine ⟨s, hs, ?_⟩
+  unfold Decimal.NewFromString
+  rw [hq]
+  cases FromSyntax.decimal text d.range <;> rfl
+
+/-- `directives.Decimal.Parse` -/
+theorem Decimal_Parse_agrees {text : Bytes} {path : String} {d : Syntax.Decimal} (h : DecimalOK text d) :
+    directives.Decimal.Parse (goDecimal text path d) = .ok (match FromSyntax.decimal text d.range with
+      | some q => (q, none)
+      | none => (0, some ⟨"parsing date"⟩)) := by
+  obtain ⟨s, hs, hq⟩ := NewFromString_agrees h
   unfold directives.Decimal.Parse goDecimal
-  simp [extract_ok hs, Outcome.bind, hq]
+  simp only [extract_ok hs, Outcome.bind, hq]
+  cases FromSyntax.decimal text d.range <;> simp
 
 /-! ### `open.Create`, `close.Create`, `price.Create` -/
 
@@ -522,18 +540,20 @@ theorem isErr_ok {α : Type} (v : α) (e : Error) : IsErr (GoSem.Outcome.ok (v, 
 /-- `price.Create`: date, commodity, price, target -/
 theorem price_Create_agrees {text : Bytes} {path : String} (cur : String → Bool) (p : Syntax.Price)
     (hd : TextOK text p.date.range) (hc : CommodityOK text p.commodity) (ht : CommodityOK text p.target)
-    (hp : DecimalOK text p.price) (hlen : text.length ≤ 2147483648) :
+    (hp : DecimalOK text p.price) :
     match FromSyntax.item text ⟨p.range, .price p⟩ with
     | some (.price m) => price.Create (goPrice text path p) (regCommodity cur) (regCommodity cur) = .ok (priceGo cur Ref.node m, none)
     | _ => IsErr (price.Create (goPrice text path p) (regCommodity cur) (regCommodity cur)) := by
   obtain ⟨c, hc1, hc2⟩ := hc
   obtain ⟨t, ht1, ht2⟩ := ht
-  obtain ⟨q, hq⟩ := Option.isSome_iff_exists.mp hp
   unfold price.Create goPrice FromSyntax.item
-  simp only [Date_Parse_agrees hd, regCommodity_agrees hc1 hc2, regCommodity_agrees ht1 ht2, Decimal_Parse_agrees hq hlen, hc1, ht1, hq]
+  simp only [Date_Parse_agrees hd, regCommodity_agrees hc1 hc2, regCommodity_agrees ht1 ht2, Decimal_Parse_agrees hp, hc1, ht1]
   cases FromSyntax.date text p.date with
   | none => simp [Outcome.bind]; exact isErr_ok _ _
-  | some dt => simp [Outcome.bind, priceGo, TransPrice.cGo, commodityGo]
+  | some dt =>
+    cases FromSyntax.decimal text p.price.range with
+    | none => simp [Outcome.bind]; exact isErr_ok _ _
+    | some q => simp [Outcome.bind, priceGo, TransPrice.cGo, commodityGo]
 
 /-! ### `assertion.Create` -/
 
@@ -548,8 +568,7 @@ def BalanceOK (text : Bytes) (b : Syntax.Balance) : Prop :=
   AccountOK text b.account ∧ DecimalOK text b.quantity ∧ CommodityOK text b.commodity
 
 /-- the loop of `assertion.Create` -/
-theorem assertion_range1_agrees {text : Bytes} {path : String} (cur : String → Bool) (a : directives.Assertion)
-    (hlen : text.length ≤ 2147483648) :
+theorem assertion_range1_agrees {text : Bytes} {path : String} (cur : String → Bool) (a : directives.Assertion) :
     ∀ (items : List Syntax.Balance) (acc : List assertion.Balance), (∀ b ∈ items, BalanceOK text b) →
       match items.mapM (balanceM text) with
       | some bals => assertion.Create.range1 regAccount (regCommodity cur) a (items.map (goBalance text path)) acc
@@ -563,13 +582,15 @@ theorem assertion_range1_agrees {text : Bytes} {path : String} (cur : String →
     intro acc hok
     obtain ⟨ha, hq, hc⟩ := hok b (by simp)
     obtain ⟨c, hc1, hc2⟩ := hc
-    obtain ⟨q, hq⟩ := Option.isSome_iff_exists.mp hq
     have ih' := fun acc' => ih acc' (fun b' hb' => hok b' (by simp [hb']))
     simp only [List.map_cons, assertion.Create.range1, List.mapM_cons, balanceM, goBalance, regAccount_agrees ha,
-      Decimal_Parse_agrees hq hlen, regCommodity_agrees hc1 hc2, hq, hc1]
+      Decimal_Parse_agrees hq, regCommodity_agrees hc1 hc2, hc1]
     cases FromSyntax.account text b.account with
     | none => simp
     | some acc0 =>
+      cases FromSyntax.decimal text b.quantity.range with
+      | none => simp [Outcome.bind]
+      | some q =>
       simp only [Option.isSome_none, Bool.false_eq_true, if_false, Outcome.bind, Option.bind_some]
       have := ih' (acc ++ [balanceGo cur Ref.node ⟨acc0, q, c⟩])
       cases hm : List.mapM (balanceM text) rest with
@@ -583,7 +604,7 @@ theorem assertion_range1_agrees {text : Bytes} {path : String} (cur : String →
 
 /-- `assertion.Create`: the date, then every balance (account through the registry, quantity, commodity) in order -/
 theorem assertion_Create_agrees {text : Bytes} {path : String} (cur : String → Bool) (a : Syntax.Assertion)
-    (hd : TextOK text a.date.range) (hb : ∀ b ∈ a.balances, BalanceOK text b) (hlen : text.length ≤ 2147483648) :
+    (hd : TextOK text a.date.range) (hb : ∀ b ∈ a.balances, BalanceOK text b) :
     match FromSyntax.date text a.date, a.balances.mapM (balanceM text) with
     | some dt, some bals => assertion.Create (goAssertion text path a) regAccount (regCommodity cur)
         = .ok (⟨Ref.node, dt, bals.map (balanceGo cur Ref.node)⟩, none)
@@ -594,7 +615,7 @@ theorem assertion_Create_agrees {text : Bytes} {path : String} (cur : String →
   | none => simp [Outcome.bind]; exact isErr_ok _ _
   | some dt =>
     have hl := assertion_range1_agrees (path := path) cur
-      ⟨goRange text path a.range, goDate text path a.date, a.balances.map (goBalance text path)⟩ hlen a.balances [] hb
+      ⟨goRange text path a.range, goDate text path a.date, a.balances.map (goBalance text path)⟩ a.balances [] hb
     cases hm : a.balances.mapM (balanceM text) with
     | none =>
       simp only [hm] at hl
@@ -611,8 +632,7 @@ def BookingOK (text : Bytes) (b : Syntax.Booking) : Prop :=
   AccountOK text b.credit ∧ AccountOK text b.debit ∧ DecimalOK text b.quantity ∧ CommodityOK text b.commodity
 
 /-- the loop of `posting.Create` -/
-theorem posting_range1_agrees {text : Bytes} {path : String} (cur : String → Bool) (bs0 : List directives.Booking)
-    (hlen : text.length ≤ 2147483648) :
+theorem posting_range1_agrees {text : Bytes} {path : String} (cur : String → Bool) (bs0 : List directives.Booking) :
     ∀ (items : List Syntax.Booking) (idx : Int) (acc : posting.Builders), (∀ b ∈ items, BookingOK text b) →
       match items.mapM (FromSyntax.booking text) with
       | some bks => posting.Create.range1 regAccount regAccount (regCommodity cur) bs0 (items.map (goBooking text path)) idx acc
@@ -626,17 +646,20 @@ theorem posting_range1_agrees {text : Bytes} {path : String} (cur : String → B
     intro idx acc hok
     obtain ⟨hcr, hdr, hq, hc⟩ := hok b (by simp)
     obtain ⟨c, hc1, hc2⟩ := hc
-    obtain ⟨q, hq⟩ := Option.isSome_iff_exists.mp hq
-    obtain ⟨qs, hqs, hnq⟩ := NewFromString_agrees hq hlen
+    obtain ⟨qs, hqs, hnq⟩ := NewFromString_agrees hq
     have ih' := fun idx' acc' => ih idx' acc' (fun b' hb' => hok b' (by simp [hb']))
     simp only [List.map_cons, posting.Create.range1, List.mapM_cons, FromSyntax.booking, goBooking, goDecimal, regAccount_agrees hcr,
-      regAccount_agrees hdr, extract_ok hqs, hnq, regCommodity_agrees hc1 hc2, hq, hc1]
+      regAccount_agrees hdr, extract_ok hqs, regCommodity_agrees hc1 hc2, hc1]
     cases FromSyntax.account text b.credit with
     | none => simp
     | some cr =>
       cases FromSyntax.account text b.debit with
       | none => simp
       | some dr =>
+        cases hqq : FromSyntax.decimal text b.quantity.range with
+        | none => simp [hqq] at hnq; simp [Outcome.bind, hnq]
+        | some q =>
+        simp only [hqq] at hnq
         simp only [Option.isSome_none, Bool.false_eq_true, if_false, Outcome.bind, hnq]
         have := ih' (idx + 1) (acc ++ [builderGo cur Ref.node ⟨cr, dr, q, c⟩])
         cases hm : List.mapM (FromSyntax.booking text) rest with
@@ -650,13 +673,13 @@ theorem posting_range1_agrees {text : Bytes} {path : String} (cur : String → B
 /-- `posting.Create`: every booking through the registries and `decimal.NewFromString`, then `Builders.Build`: the posting pairs of
 all bookings in order (`Accrual.postingsOf`); an invalid account is the error -/
 theorem posting_Create_agrees {text : Bytes} {path : String} (cur : String → Bool) (bs : List Syntax.Booking)
-    (hb : ∀ b ∈ bs, BookingOK text b) (hlen : text.length ≤ 2147483648) :
+    (hb : ∀ b ∈ bs, BookingOK text b) :
     match bs.mapM (FromSyntax.booking text) with
     | some bks => posting.Create (bs.map (goBooking text path)) regAccount regAccount (regCommodity cur)
         = .ok ((Accrual.postingsOf bks).map (postingGo cur Ref.node), none)
     | none => ∃ e, posting.Create (bs.map (goBooking text path)) regAccount regAccount (regCommodity cur) = .ok ([], some e) := by
   unfold posting.Create
-  have hl := posting_range1_agrees (path := path) cur (bs.map (goBooking text path)) hlen bs 0 [] hb
+  have hl := posting_range1_agrees (path := path) cur (bs.map (goBooking text path)) bs 0 [] hb
   cases hm : bs.mapM (FromSyntax.booking text) with
   | none =>
     simp only [hm] at hl
